@@ -102,3 +102,22 @@ Definition mk_obs (o : option (list nat * list (nat * nat))) : option (list nat 
   match o with Some (ks, tr) => Some (ks, length tr) | None => None end.
 Definition mk_knees (o : option (list nat * list (nat * nat))) : option (list nat) :=
   match o with Some (ks, _) => Some ks | None => None end.
+
+(* the two sub-calls of the decomposition, on the model: multi_knee(points[:k+1]) and multi_knee(points[k+1:])
+   where k is the answer of the first pop on the whole curve *)
+Section SubCalls.
+  Context {N : Num}.
+  Variable cost : mk_cost.
+  Variable straight : nat -> nat -> T N.
+  Variable knee1 : nat -> nat -> option nat.
+  Variable t1 : T N.
+  Variable t2 : nat.
+  Variable n : nat.
+  Definition mk_runL (k : nat) := multi_knee cost straight knee1 t1 t2 (k + 1).
+  Definition mk_runR (k : nat) :=
+    multi_knee cost (shift2 (k + 1) straight) (shift2 (k + 1) knee1) t1 t2 (n - (k + 1)).
+  Definition mk_subL : option (list nat) :=
+    match mk_step cost straight knee1 t1 t2 0 n with Some k => mk_knees (mk_runL k) | None => None end.
+  Definition mk_subR : option (list nat) :=
+    match mk_step cost straight knee1 t1 t2 0 n with Some k => mk_knees (mk_runR k) | None => None end.
+End SubCalls.
